@@ -91,6 +91,31 @@ CLAIMED["C17"] = {
             "symbolic input is thorough-tier only.",
 }
 
+CLAIMED["C07"] = {
+    "text": "Every fixed-layout PDU (Serial Notify/Query, Reset Query, Cache "
+            "Response/Reset, IPv4/IPv6 Prefix, both End of Data forms) is "
+            "written and read back through the real async writers/readers "
+            "(poll loop with a no-op waker) for all field values: "
+            "bit-identical, accessors equal inputs, length field = bytes "
+            "written. Origin -> PDU (all origins, both actions, all "
+            "versions) and PDU -> origin (every prefix PDU, valid or not) "
+            "are decided separately and compose to 'survives the wire'. "
+            "End of Data version split and read_payload dispatch, Error PDU "
+            "layout, and for broken streams: every truncation class of the "
+            "fixed-layout readers and Error::skip_payload with arbitrary "
+            "header and body (errors, bounded consumption, no spinning on a "
+            "closed stream).",
+    "ref": "§3 C07",
+    "note": "Streams are cut at enumerated truncation points (values "
+            "symbolic, lengths concrete): symbolic stream lengths make the "
+            "queries run out of memory. NOT decided: reading Router Key / "
+            "ASPA PDUs back from a stream and Payload::read (harnesses kept "
+            "in the module as '@tier off'; their queries do not finish), "
+            "so for those two PDU kinds only item -> PDU gating is covered "
+            "by reading. Memory a hostile length field can request is "
+            "outside the claim.",
+}
+
 NOT_APPLICABLE = {
 }
 
